@@ -39,6 +39,24 @@ def run(ctx):
     raw = lib.run_impl(ctx, [lib.store_cmd("yaml -", f, b) for f, b in sb], tag="yaml-rt")
     dis, failing = [], []
     kinds = {}
+    # the dump against the graph it was made from (implementation alone): entry i and exit i of a node are the entry and the
+    # exit of ONE of its functions
+    import dump
+    graphs = lib.run_impl(ctx, [lib.store_cmd("cfg live -", f, b) for f, b in sb], tag="graphs")
+    for (f, b, tag), r, gl in zip(stores, raw, graphs):
+        g = dump.parse(lib._PICKS.sub("", gl))
+        if g is None:
+            continue
+        for m in re.finditer(r"Y\((\d+) func_entry=\[([^\]]*)\] func_exit=\[([^\]]*)\]", r):
+            i = int(m.group(1))
+            e = [int(x[1:]) for x in m.group(2).split(",") if x]
+            x = [int(y[1:]) for y in m.group(3).split(",") if y]
+            if i >= len(g["nodes"]):
+                continue
+            want = sorted((g["funcs"][fid]["entry"], g["funcs"][fid]["exit"]) for fid in g["nodes"][i].funcs if fid < len(g["funcs"]))
+            if len(e) != len(x) or sorted(zip(e, x)) != want:
+                failing.append(dict(files=f, base=b, kind=tag, why="node %d: the dump pairs entries %s with exits %s, its functions are (entry, exit) = %s" % (i, e, x, want)))
+                break
     for (f, b, tag), a, m, r in zip(stores, impl, model, raw):
         if a in ("TIMEOUT", "CRASH"):
             continue
